@@ -14,5 +14,12 @@ Theorem C16_compress_effects : forall env,
   /\ exists cr ex tr, s_eff r = [EOpenW 0 cr ex tr true; EOpenW 1 true false true true; EWrites; EUnlink 1].
 Proof. exact compress_effects. Qed.
 
+(* the source of the clone command (regenerated): it contains no call that removes, renames, links, copies or creates
+   another file, and exactly one OpenOptions (the output's, whose flags are the ones above) *)
+Theorem C16_clone_source_touches_no_other_file :
+  clone_source_touches_no_other_file = true /\ clone_open_options_count = 1.
+Proof. split; reflexivity. Qed.
+
 Print Assumptions C16_clone_effects.
 Print Assumptions C16_compress_effects.
+Print Assumptions C16_clone_source_touches_no_other_file.
